@@ -29,6 +29,9 @@ pub struct VehicleCfg {
     /// model file and model type and still declare different units
     #[serde(default)]
     pub model_units: Option<(String, String)>,
+    /// size of the interpolation grid (speed bins, grade bins); None = 21 x 9
+    #[serde(default)]
+    pub interp_bins: Option<(usize, usize)>,
 }
 
 /// the exact decimal expansion of the midpoint between an f32 and its neighbour of larger magnitude, with one
@@ -164,6 +167,10 @@ pub struct World {
     /// policy override; None = every run uses the configured policy
     #[serde(default)]
     pub per_run_sinks: Option<Vec<u8>>,
+    /// file names (without extension, below /sim/) of the two response files; None = "out" / "out2". The second may
+    /// sort before the first, and both may share one stem when their formats - hence extensions - differ
+    #[serde(default)]
+    pub out_stems: Option<(String, String)>,
 }
 
 pub fn uuid_of(v: usize) -> String {
@@ -391,6 +398,7 @@ impl World {
             uuid_plugin: false,
             policies_at_run_level: false,
             per_run_sinks: None,
+            out_stems: None,
         }
     }
 
@@ -407,15 +415,17 @@ impl World {
         self.table_path(stem)
     }
     pub fn out_path(&self) -> String {
+        let stem = self.out_stems.as_ref().map_or("out", |s| s.0.as_str());
         match &self.out {
-            Some(OutFile { format: OutFormat::Csv { .. }, .. }) => "/sim/out.csv".into(),
-            _ => "/sim/out.json".into(),
+            Some(OutFile { format: OutFormat::Csv { .. }, .. }) => format!("/sim/{}.csv", stem),
+            _ => format!("/sim/{}.json", stem),
         }
     }
     pub fn out2_path(&self) -> String {
+        let stem = self.out_stems.as_ref().map_or("out2", |s| s.1.as_str());
         match &self.out2 {
-            Some(OutFile { format: OutFormat::Csv { .. }, .. }) => "/sim/out2.csv".into(),
-            _ => "/sim/out2.json".into(),
+            Some(OutFile { format: OutFormat::Csv { .. }, .. }) => format!("/sim/{}.csv", stem),
+            _ => format!("/sim/{}.json", stem),
         }
     }
     pub fn headings_path(&self) -> String {
@@ -626,10 +636,11 @@ impl World {
                         let (s_hi, g_hi) = interpolation_bounds(&m_speed, &m_grade);
                         let model_type = |_m: &str| -> Value {
                             if v.interpolate {
+                                let (sb, gb) = v.interp_bins.unwrap_or((21, 9));
                                 json!({"interpolate": {
                                     "underlying_model_type": "smartcore",
-                                    "speed_lower_bound": 0, "speed_upper_bound": s_hi, "speed_bins": 21,
-                                    "grade_lower_bound": -g_hi, "grade_upper_bound": g_hi, "grade_bins": 9 }})
+                                    "speed_lower_bound": 0, "speed_upper_bound": s_hi, "speed_bins": sb,
+                                    "grade_lower_bound": -g_hi, "grade_upper_bound": g_hi, "grade_bins": gb }})
                             } else {
                                 json!("smartcore")
                             }
